@@ -21,6 +21,9 @@ type c01Inv struct {
 	Ctx     *string  `json:"ctx,omitempty"`
 	Trace   string   `json:"trace,omitempty"`
 	Kind    string   `json:"kind"` // ok | error | repoll | crash | stall | oversize
+	// Knock: while this invocation is with the runtime a second caller tries the invoke endpoint (and is refused); the
+	// invocation itself must go on untouched (kinds ok, error, repoll)
+	Knock bool `json:"knock,omitempty"`
 }
 
 type c01Case struct {
@@ -54,7 +57,12 @@ func (c *c01Case) scenario() *Scenario {
 	flush := func() { scripts = append(scripts, Script{Steps: cur}); cur = []Step{} }
 	for i, inv := range c.Invs {
 		tag := fmt.Sprintf("i%d", i)
-		cur = append(cur, Step{Op: "rt.next", Tag: tag})
+		knock := inv.Knock && (inv.Kind == "ok" || inv.Kind == "error" || inv.Kind == "repoll")
+		if knock {
+			cur = append(cur, Step{Op: "rt.next", Tag: tag, Signal: []string{tag + ".got"}}, Step{Op: "await", Name: tag + ".go", Ms: 3000})
+		} else {
+			cur = append(cur, Step{Op: "rt.next", Tag: tag})
+		}
 		switch inv.Kind {
 		case "ok":
 			cur = append(cur, Step{Op: "rt.response", ID: "cur", BodyMode: "transform", Tag: tag})
@@ -70,6 +78,13 @@ func (c *c01Case) scenario() *Scenario {
 		case "stall":
 			cur = append(cur, Step{Op: "stall"})
 			flush()
+		}
+		if knock {
+			sc.Driver = append(sc.Driver, Step{Op: "invoke", Async: true, Tag: tag, Payload: &c.Invs[i].Payload, ClientCtx: inv.Ctx, Trace: inv.Trace},
+				Step{Op: "await", Name: tag + ".got", Ms: 3000},
+				Step{Op: "invoke", Tag: fmt.Sprintf("k%d", i), Payload: &kit.Blob{Len: 7 + i, Seed: uint64(70 + i), Kind: "ascii"}},
+				Step{Op: "signal", Name: tag + ".go"}, Step{Op: "join", Tag: tag})
+			continue
 		}
 		sc.Driver = append(sc.Driver, Step{Op: "invoke", Tag: tag, Payload: &c.Invs[i].Payload, ClientCtx: inv.Ctx, Trace: inv.Trace})
 	}
@@ -111,6 +126,15 @@ func c01Check(c c01Case) kit.Outcome {
 	afterBad := false
 	for i, inv := range c.Invs {
 		out.Label("kind:" + inv.Kind)
+		if inv.Knock && (inv.Kind == "ok" || inv.Kind == "error" || inv.Kind == "repoll") {
+			out.Label("knock")
+			out.Nontrivial = true
+			if k := tr.invokeReturn(fmt.Sprintf("k%d", i)); k != nil && k.Status >= 400 && k.Status < 500 {
+				out.Label("knock:refused")
+			} else if k != nil {
+				out.Label(fmt.Sprintf("knock:status-%d", k.Status))
+			}
+		}
 		lens[inv.Payload.Len] = true
 		if inv.Payload.Len == 0 || inv.Payload.Kind == "nonutf8" || inv.Payload.Len >= 1<<20 {
 			out.Nontrivial = true
@@ -385,6 +409,7 @@ func c01Gen(t *rapid.T) c01Case {
 			s := c01CtxGen.Draw(t, fmt.Sprintf("ctx%d", i))
 			inv.Ctx = &s
 		}
+		inv.Knock = rapid.IntRange(0, 5).Draw(t, fmt.Sprintf("knock%d", i)) == 0
 		if rapid.Bool().Draw(t, fmt.Sprintf("hasTrace%d", i)) {
 			inv.Trace = "Root=1-5e1b4151-5ac6c58f3e1d2c4b7a9e0f11;Parent=53995c3f42cd8ad8;Sampled=1"
 		}
@@ -414,7 +439,10 @@ func c01Fixed() []c01Case {
 			{Payload: kit.Blob{Len: 300, Seed: 1, Kind: "ascii"}, Kind: "ok", Ctx: &s},
 			{Payload: kit.Blob{Len: 10, Seed: 2, Kind: "nonutf8"}, Kind: "ok"},
 			{Payload: kit.Blob{Len: 0, Kind: "zero"}, Kind: "error"},
-			{Payload: kit.Blob{Len: 4097, Seed: 3, Kind: "random"}, Kind: "repoll"}}},
+			{Payload: kit.Blob{Len: 4097, Seed: 3, Kind: "random"}, Kind: "repoll"},
+			{Payload: kit.Blob{Len: 77, Seed: 4, Kind: "json"}, Kind: "ok", Knock: true},
+			{Payload: kit.Blob{Len: 78, Seed: 5, Kind: "json"}, Kind: "error", Knock: true},
+			{Payload: kit.Blob{Len: 79, Seed: 6, Kind: "json"}, Kind: "ok"}}},
 		{TimeoutMs: 300, TimeoutEnvS: 3, Ext: true, Invs: []c01Inv{
 			{Payload: kit.Blob{Len: 5000, Seed: 1, Kind: "json"}, Kind: "stall"},
 			{Payload: kit.Blob{Len: 20, Seed: 2, Kind: "json"}, Kind: "ok"},
